@@ -8,7 +8,7 @@
       nn                 N.of_nat (complex indices are stored as N in the classes) *)
 From Coq Require Import List NArith ZArith.
 Require mathcomp.algebra.mxalgebra mathcomp.algebra.matrix mathcomp.algebra.rat.
-Require SK.lib.RankBridge SK.proof.C19_Rank SK.proof.C19_ClassRank SK.proof.C19_Nullity.
+Require SK.lib.RankBridge SK.proof.C19_Rank SK.proof.C19_ClassRank SK.proof.C19_Nullity SK.proof.C19_SumExact.
 From SK Require Import lib.Reach model.C17_Model model.C19_Model model.C19_Api model.C19_Text model.C19_Fast model.C17_NodeModel model.C19_Nodes proof.C19_FastProof proof.C19_TextProof proof.C19_ApiProof proof.C19_NodesProof proof.C17_Proof proof.C19_Proof proof.C19_Complexes proof.C19_Linkage proof.C19_Regular proof.C19_DefOne.
 Import ListNotations.
 
@@ -620,3 +620,22 @@ Theorem C19_text :
   (forall s1 s2, repr_str (Some s1) = repr_str (Some s2) -> deficiency s1 = deficiency s2).
 Proof. exact text_spec. Qed.
 Print Assumptions C19_text.
+
+(** (43) the last clause of the property WITHOUT any certificate premise: for EVERY network, with the exact ranks over the
+         rationals (MathComp \rank) of S and of each class's difference vectors,
+             rank S + sum_c (n_c - 1 - rank D_c) + l <= n,
+         i.e. the linkage-class deficiencies sum to at most n - l - rank S = the deficiency (every subtraction is exact:
+         rank D_c + 1 <= n_c is (11b), rank S + l <= n is (7)).  (9) is this statement with the ranks read from accepted certificates. *)
+Theorem C19_linkage_sum_exact : forall (net : list rxn) (iso : list str),
+  let cs := fst (complex_graph net iso) in
+  let arcs := snd (complex_graph net iso) in
+  let L := linkage_classes arcs (length cs) in
+  let m := length (species_order net iso) in
+  let r := length (reaction_order net) in
+  let F := mathcomp.algebra.rat.rat_fieldType in
+  let rank_c (c : list N) := @mathcomp.algebra.mxalgebra.mxrank F (length (class_diffs cs arcs c)) m
+                               (SK.lib.RankBridge.toM (length (class_diffs cs arcs c)) m (class_diffs cs arcs c)) in
+  @mathcomp.algebra.mxalgebra.mxrank F m r (SK.lib.RankBridge.toM m r (build_S net iso)) +
+  list_sum (map (fun c => length c - 1 - rank_c c) L) + length L <= length cs.
+Proof. exact SK.proof.C19_SumExact.linkage_sum_exact_list. Qed.
+Print Assumptions C19_linkage_sum_exact.
